@@ -48,4 +48,7 @@ def sumR (l : List Rat) : Rat := l.foldl (· + ·) 0
 def ratToFloat (r : Rat) : Float :=
   Float.ofInt r.num / Float.ofNat r.den
 
+/-- π as the nearest double (`math.pi`) -/
+def piF : Float := 3.141592653589793
+
 end Skg
